@@ -359,6 +359,22 @@ Definition finish_upload (s : state) (b n ctype : str) (md5decl : N) (meta : lis
 Definition set_uploads (s : state) (cnt : Z) (ups : list (str * upload)) : state :=
   mkState (s_buckets s) (s_clock s) cnt ups.
 
+(* handleResumableUpload's treatment of one PUT, on the bytes held so far.
+   [resume_apply held br data]: None = the request is refused with 400 (length/offset
+   mismatch); Some held' = the bytes held after the request. *)
+Definition resume_apply (held : bytes) (br : byte_range) (data : bytes) : option bytes :=
+  let len := Z.of_nat (length data) in
+  let lo := br_lo br in
+  if (Z.eqb lo (-1) && negb (Z.eqb len 0))
+     || (negb (Z.eqb lo (-1)) && negb (Z.eqb len (wrap64 (br_hi br + 1 - lo))))
+  then None
+  else if (Z.of_nat (length held) <? lo) then None
+  else Some ((if Z.eqb lo (-1) then held else firstn (Z.to_nat lo) held) ++ data).
+
+(* the upload is complete (finishUpload is called) iff the total size is known and reached *)
+Definition resume_done (br : byte_range) (held' : bytes) : bool :=
+  negb ((br_sz br <? 0) || (Z.of_nat (length held') <? br_sz br)).
+
 Definition handle (s : state) (r : req) : state * resp :=
   match r with
   | RUploadMedia b n ctype data cp =>
@@ -399,27 +415,21 @@ Definition handle (s : state) (r : req) : state * resp :=
           match parse_byte_range cr with
           | None => (s, err 400)
           | Some br =>
-            let len := Z.of_nat (length data) in
-            let lo := br_lo br in
-            if (Z.eqb lo (-1) && negb (Z.eqb len 0))
-               || (negb (Z.eqb lo (-1)) && negb (Z.eqb len (wrap64 (br_hi br + 1 - lo))))
-            then (s, err 400)
-            else if (Z.of_nat (length (up_data u)) <? lo) then (s, err 400)
-            else
-              let held := if Z.eqb lo (-1) then up_data u else firstn (Z.to_nat lo) (up_data u) in
-              let data' := held ++ data in
+            match resume_apply (up_data u) br data with
+            | None => (s, err 400)
+            | Some data' =>
               let u' := mkUpload (up_bucket u) (up_name u) (up_ctype u) (up_md5 u) (up_meta u)
                                  (up_conds u) data' in
               let s1 := set_uploads s (s_upcount s) (ainsert id u' (s_uploads s)) in
-              let held_len := Z.of_nat (length data') in
-              if (br_sz br <? 0) || (held_len <? br_sz br)
-              then (s1, mkResp 308 (BResume held_len))
-              else
+              if resume_done br data'
+              then
                 let '(s2, rsp) := finish_upload s1 (up_bucket u) (up_name u) (up_ctype u) (up_md5 u)
                                                 (up_meta u) data' (up_conds u) in
                 if Z.eqb (r_status rsp) 200
                 then (set_uploads s2 (s_upcount s2) (aremove id (s_uploads s2)), rsp)
                 else (s2, rsp)
+              else (s1, mkResp 308 (BResume (Z.of_nat (length data'))))
+            end
           end
         end
       end
